@@ -163,6 +163,30 @@ def run(ctx):
                 cj.append((d, None if i % 3 else "div", False, builder, True, False, k))
     crow = core.parallel(_run_one, cj, chunk=200)
     judge(ctx, crow, "chunked")
+    # 2d. the specification's transition cover (TLC-computed shortest input per abstract parser state x one more token), here
+    #     only for totality and the skeleton: every (state, token) pair of the model is a call of a distinct handler of the code
+    cov = [(d, cx, scr, b, True, False) for d, cx, scr, b in c01.cover_tests(ctx, listed)]
+    ctx.notes["transition_cover_parses"] = len(cov)
+    judge(ctx, core.parallel(_run_one, cov, chunk=2000), "cover")
+    # 2e. byte input: every prefix of a well-formed encoding declaration (the late-<meta> path of the tree builder and the
+    #     prescan both parse the content attribute; a truncated declaration must not stop the parse)
+    decl = []
+    for full in ('text/html; charset = "utf-8" ; x', "text/html;charset='koi8-r'", "charset=utf-16le", "a; charset  =\t utf-8x y"):
+        for k in range(len(full) + 1):
+            v = full[:k]
+            for q_ in ('"', "'", ""):
+                if q_ or not any(c in v for c in " \t>"):
+                    decl.append('<meta http-equiv=content-type content=%s%s%s>x' % (q_, v, q_))
+                    decl.append('<meta content=%s%s%s http-equiv="Content-Type">x' % (q_, v, q_))
+    for full in ('<meta charset="utf-8">', "<meta http-equiv='content-type' content='text/html; charset=x'>", "<meta charset = windows-1252 / >"):
+        decl += [full[:k] for k in range(1, len(full) + 1)]
+    dj = []
+    for i, d in enumerate(decl):
+        for pad in ((0,) if q and i % 4 else (0, 1100)):       # 1100: beyond the prescan window, so only the tree builder sees it
+            b_ = (b"<!--" + b"-" * pad + b"-->" if pad else b"") + d.encode("latin-1")
+            dj.append((b_, None if i % 3 else "div", False, "dom" if i % 2 else "etree", True, False))
+    ctx.notes["declaration_prefix_parses"] = len(dj)
+    judge(ctx, core.parallel(_run_one, dj, chunk=500), "declprefix")
     # 2c. many distinct element names in one document / one long-lived parser (bounded per-phase handler caches)
     many = []
     for n in ((300,) if q else (300, 1000, 3000)):
